@@ -7,7 +7,7 @@ import numpy as np
 from mc.build import Labeling, cmp_named, make_bn, named_table, ref_named, tbl_json
 from mc.gen.dags import all_dags, all_ugraphs, is_connected, iso_classes, subsets
 from mc.gen.tables import bn_from_desc, core_descs, family_descs
-from mc.markov import LAYOUTS, joint_of, make_factor, make_fg, make_mn, max_cliques, ref_mn
+from mc.markov import LAYOUTS_X as LAYOUTS, joint_of, make_factor, make_fg, make_mn, max_cliques, ref_mn
 from mc.ref.discrete import RefFactor, posterior
 from mc.ref.graphs import G
 from mc.stats import Stats
